@@ -143,8 +143,11 @@ def real_traces(groups, rng, tier, modes=('keygen', 'std', 'safe'), kms=None):
                 # the same group as a functools.partial that binds the defaulted keyword-only parameter, as a method
                 # (ignore=('self', ...)), and with a single-element ignore specification passed bare
                 rot = (n + gi) % (1 if tier == 'thorough' else 4) == 0
-                if rot and (g['sid'] // 8) % 3 == 2:
+                if rot and ((g['sid'] % 48) // 8) % 3 == 2:
                     jobs.append((g, km, mode, dict(v, kind='partial')))
+                # ... and as a functools.partial that presets a keyword which the function only collects in **kw
+                if rot and ((g['sid'] % 48) // 24) % 2 == 1 and g['iid'] == 0:
+                    jobs.append((g, km, mode, dict(v, kind='partialz')))
                 if rot and g['iid'] in (0, 1, 2, 5, 6, 7, 8, 9):
                     jobs.append((g, km, mode, dict(v, kind='method')))
                 if rot and (any(p['hd'] for p in g['sig']['pos']) or any(p['hd'] for p in g['sig']['ko'])):
